@@ -30,7 +30,7 @@ METHODS = {
     "__delitem__": "MDelItem", "pop": "MPop", "popitem": "MPopItem", "clear": "MClear",
     "setdefault": "MSetDefault", "update": "MUpdate", "__ior__": "MIor", "__eq__": "MEq",
     "copy": "MCopy", "__len__": "MLen", "__contains__": "MContains",
-    "__or__": "MOr", "__ror__": "MRor", "__repr__": "MRepr",
+    "__or__": "MOr", "__ror__": "MRor", "__repr__": "MRepr", "__ne__": "MNe", "__copy__": "MCopy2",
 }
 # attributes of self that are configuration / statistics, not the shared structures
 BENIGN_ATTRS = {"max_size", "on_miss", "hit_count", "miss_count", "soft_miss_count", "__class__"}
@@ -110,6 +110,9 @@ class _Classifier:
                         call = True                      # self[...]  load / store / del
                     elif isinstance(par, ast.Compare) and all(isinstance(o, (ast.Is, ast.IsNot)) for o in par.ops):
                         pass                             # identity test only
+                    elif isinstance(par, ast.Compare) and par.left is n and len(par.ops) == 1 \
+                            and isinstance(par.ops[0], (ast.Eq, ast.NotEq)):
+                        call = True                      # `self == x` / `self != x`: the cache's own (table) method
                     elif isinstance(par, ast.Return) or par is None:
                         pass                             # `return self`
                     else:
